@@ -35,6 +35,33 @@ theorem warns_iff (col : List Cell) :
       ∃ c ∈ col, c.isMissing = true :=
   profileColumn_ignore_prefix_iff col
 
+/-- one row per profiled attribute, in request order (all columns when `profile_attrs` is None), each row being the
+    profile of that column -/
+theorem one_row_per_attribute (f : Frame) (attrs : Option (List String)) (rows : List (String × String × String × String))
+    (h : profileTable (some f) attrs = .ok rows) :
+    rows = (attrs.getD f.columns).map (fun a => (a, (profileColumn (f.col a)).1, (profileColumn (f.col a)).2.1, (profileColumn (f.col a)).2.2)) := by
+  unfold profileTable at h
+  simp only [validateInputTable, bind, Except.bind, pure, Except.pure] at h
+  cases attrs with
+  | none =>
+    simp only [Option.getD] at h ⊢
+    split at h
+    · simp at h
+    · simpa using h.symm
+  | some l =>
+    simp only [Option.getD] at h ⊢
+    cases hv : (l.forM (fun a => validateAttr a f) : Except PyErr PUnit) with
+    | error e => simp [hv] at h
+    | ok u =>
+      simp only [hv] at h
+      split at h
+      · simp at h
+      · simpa using h.symm
+
+/-- argument validation of the profiler: a non-DataFrame is rejected with TypeError -/
+theorem rejects_non_dataframe (attrs : Option (List String)) : profileTable none attrs = .error .typeErr := by
+  simp [profileTable, validateInputTable, bind, Except.bind]
+
 /-! non-vacuity: three rows, one duplicate ⇒ no key recommendation; the witness of the repaired defect is the same
     statement at 20 001 rows, covered by the theorem above for every length -/
 example : (profileColumn [.int 1, .int 2, .int 1]).2.2 = "" := by decide
